@@ -640,7 +640,7 @@ func genCase(rt *rapid.T, maxDepth int) *Case {
 func TestRandom(t *testing.T) {
 	ev.SetChecks(ev.Scale(9000, 900000))
 	maxDepth := ev.Pick(4, 6)
-	rapid.Check(t, func(rt *rapid.T) {
+	ev.Check(t, func(rt *rapid.T) {
 		c := genCase(rt, maxDepth)
 		if !run(c, "random", func(string, string) {}) {
 			rt.Fatalf("C08/random: the text rendering of a policy does not parse back to an equivalent policy")
@@ -899,7 +899,7 @@ func TestContainerTable(t *testing.T) {
 
 func TestContainers(t *testing.T) {
 	ev.SetChecks(ev.Scale(1500, 150000))
-	rapid.Check(t, func(rt *rapid.T) {
+	ev.Check(t, func(rt *rapid.T) {
 		o := gen.TreeOpts{Keys: gen.KeysMixed}
 		n := rapid.IntRange(0, 6).Draw(rt, "npol")
 		c := &ContainerCase{}
@@ -970,6 +970,9 @@ func TestReplay(t *testing.T) {
 	}
 	if err != nil {
 		t.Fatal(err)
+	}
+	if ev.ReplayFuzz(t, rf, fuzzProps, nil) {
+		return
 	}
 	var sub, msg string
 	var cs any
